@@ -20,9 +20,18 @@ def strip_has(node):
     return node
 
 
-def api_potentials(m):
+def api_potentials(m, container="list"):
+    """Potential objects of the model; `container` chooses how they are handed to the writer: the API documents an
+    'iterable containing Potential objects', so a tuple or a one-shot iterator must work like a list"""
     b = build_api.Builder(m["env"])
-    return [ap.Potential(a, bb, b.potdef(pd)) for a, bb, pd in m["pair"]]
+    pots = [ap.Potential(a, bb, b.potdef(pd)) for a, bb, pd in m["pair"]]
+    if container == "tuple":
+        return tuple(pots)
+    if container == "iterator":
+        return iter(pots)
+    if container == "generator":
+        return (p for p in pots)
+    return pots
 
 
 def potable_text(m, target, grid, style=None, extra_tab=None):
